@@ -55,6 +55,9 @@ structure Obs15 where
   subSer : Res (List (String × Json))              -- the same under subset=
   subDeser : Res (List (String × PyVal))
   narrowDeser : Res (List (String × PyVal))        -- deserialize_parameters(full text, subset=…)
+  -- the caller's subset object (list / tuple / set / frozenset / dict keys) is used for every call
+  subSer2 : Res (List (String × Json))             -- serialize_parameters(subset) once more, at the end
+  subsetIntact : Bool                              -- the subset object still holds the same names
   -- the same text deserialized a second time, after the containers of the first result (and of
   -- the object rebuilt from it) were mutated in place
   againDeser : Res (List (String × PyVal))
@@ -102,6 +105,8 @@ def model15 (st : List (Param × PyVal)) (subset : Option (List String)) (classL
     subDeser := match subSer with
       | .ok f => liftE (deserializeFields ps subset f)
       | .error _ => .error "noser"
+    subSer2 := liftE subSer       -- the calls are functions of (state, names): arguments are not consumed
+    subsetIntact := true
     narrowDeser := match ser with
       | .ok f => liftE (deserializeFields ps subset f)
       | .error _ => .error "noser"
@@ -152,6 +157,13 @@ def spec15 (subset : Option (List String)) (o : Obs15) : Option String :=
       | .ok ln =>
       if !beqFields ln (o.state.filter fun x => inSubset subset x.1) then
         some "subset: deserialize_parameters(full text, subset) is not the subset of the state" else
+      -- the subset object is an argument, not a work list: unchanged, and usable again
+      if !o.subsetIntact then some "subset: the caller's subset object was modified" else
+      if !(match o.subSer2, o.subSer with
+           | .ok f2, .ok f1 => beqJFields f2 f1
+           | .error e2, .error e1 => e2 == e1
+           | _, _ => false) then
+        some "subset: a second serialize_parameters with the same subset object differs from the first" else
       -- a second deserialization of the same text, after the first result was mutated in place
       if o.againShared then some "repeat: the second deserialization shares list/dict objects with the first" else
       match o.againDeser with
@@ -180,6 +192,7 @@ structure Probe where
 structure Obs16 where
   invalid : Bool
   schema : Res (List (String × Json))         -- Cls.param.schema()
+  schemaSafe : Res (List (String × Json))     -- Cls.param.schema(safe=True)
   ser : Res (List (String × Json))            -- json.loads(serialize_parameters())
   probes : List Probe
   allowNone : List (String × Bool)            -- effective allow_None (truthiness) per parameter
@@ -210,6 +223,7 @@ def model16 (st : List (Param × PyVal)) (probes : List (String × Json)) (class
   let ps := st.map (·.1)
   { invalid := !st.all (fun (p, v) => if classLevel then p.stateOK v else p.validB v)
     schema := liftE (schemaEntries none ps)
+    schemaSafe := liftE (schemaEntriesSafe none ps)
     ser := liftE (serializeParameters st none)
     probes := probes.filterMap fun (n, x) =>
       (findParam ps n).map fun p => { name := n, value := x, accepted := probeAccepted p x }
@@ -232,6 +246,10 @@ def spec16 (ps : List Param) (o : Obs16) : Option String :=
   | some (n, _) => some s!"parameter {n}: serialized value does not validate against its schema"
   | none =>
   if !validate (objectSchema entries) (.obj fields) then some "serialized state does not validate" else
+  -- `safe=True` may refuse, never give another schema
+  if (match o.schemaSafe with
+      | .ok safeEntries => !beqJFields safeEntries entries
+      | .error _ => false) then some "schema(safe=True) differs from schema()" else
   match o.probes.find? (fun pr =>
       match findParam ps pr.name, Json.lookup pr.name entries, pr.value.num? with
       | some p, some s, some x =>
